@@ -740,16 +740,30 @@ def mean(a, axis=None, **k):
     return a.sum(axis=axis) / a.shape[axis]
 
 
+def _isclose1(x, y, rtol, atol):
+    xi = isinstance(x, float) and x in (_INF, -_INF)
+    yi = isinstance(y, float) and y in (_INF, -_INF)
+    if xi or yi:
+        return bool(xi and yi and x == y)
+    d = core.sabs(SReal.lift(x) - y)
+    return _tobool(d <= core.sabs(SReal.lift(y)) * rtol + atol)
+
+
 def isclose(a, b, rtol=1e-05, atol=1e-08, **k):
+    """|a - b| <= atol + rtol * |b| elementwise (numpy's definition); symbolic elements fork"""
     if not _any_sym(a, b):
         return _np.isclose(a, b, rtol=rtol, atol=atol, **k)
-    raise Unsupported("isclose on symbolic")
+    a_, b_ = _np.broadcast_arrays(_np.asarray(a, dtype=object), _np.asarray(b, dtype=object))
+    out = _np.empty(a_.shape, dtype=bool)
+    for idx in _np.ndindex(*a_.shape):
+        out[idx] = _isclose1(a_[idx], b_[idx], rtol, atol)
+    return out if out.shape else bool(out)
 
 
 def allclose(a, b, rtol=1e-05, atol=1e-08, **k):
     if not _any_sym(a, b):
         return _np.allclose(a, b, rtol=rtol, atol=atol, **k)
-    raise Unsupported("allclose on symbolic")
+    return bool(_np.all(isclose(a, b, rtol=rtol, atol=atol)))
 
 
 def real(a):
